@@ -89,7 +89,13 @@ def _run_shard(idx):
             c = dict(c)
             c['native_clause'] = clause
             c['native_detail'] = detail
-            c['reproduced'] = (not ok) and clause == c['clause']
+            # the native run (real hyperframe/hpack, no tracer) is the ground truth: the
+            # counterexample reproduces iff that run violates too; its clause set is the
+            # one reported and matched against known findings
+            c['reproduced'] = (not ok)
+            if not ok:
+                c['sym_clause'] = c['clause']
+                c['clause'] = clause
             if sh.replay is not None and c['reproduced']:
                 try:
                     rep, info = sh.replay(c['model'])
@@ -227,8 +233,9 @@ def run_property(prop_id, tier, seed, jobs=None, only=None, verbose=False):
         for c in r.get('cex', []):
             if not c['reproduced']:
                 harness_errors.append((r['name'], 'counterexample does not reproduce '
-                                       'natively: clause=%s native=%s model=%s'
-                                       % (c['clause'], c['native_clause'], c['model'])))
+                                       'natively: clause=%s native=%s model=%s tb=%s'
+                                       % (c['clause'], c['native_clause'], c['model'],
+                                          (c.get('tb') or '')[-700:])))
                 continue
             hits = match_known(known, prop_id, r['name'], c)
             if hits is not None:
@@ -246,7 +253,8 @@ def run_property(prop_id, tier, seed, jobs=None, only=None, verbose=False):
                       open(path, 'w'), indent=1, default=str)
             violations.append((r['name'], c['clause'], path))
         if r['status'] in ('confirmed', 'refuted'):
-            if r.get('twin') is not None and not r['twin'].get('replayed'):
+            if r['status'] == 'confirmed' and r.get('twin') is not None and \
+                    not r['twin'].get('replayed'):
                 harness_errors.append((r['name'], 'reachability twin not violated: %s'
                                        % (r['twin'],)))
             if r.get('missing_expected') and r['status'] == 'confirmed':
